@@ -183,10 +183,11 @@ def install():
                   for t in self.get_tasks()]
         was_queued = {t.identity for t in self.get_tasks()
                       if t.state.is_queued}
+        _emit('QUEUE_IN', census=census)
         ret = orig_rq(self)
         rel = [t.identity for t in self.get_tasks()
                if t.identity in was_queued and not t.state.is_queued]
-        _emit('QUEUE_REL', census=census, released=rel,
+        _emit('QUEUE_REL', released=rel,
               returned=sorted(t.identity for t in ret))
         return ret
     TaskPool.release_queued_tasks = release_queued_tasks
